@@ -29,6 +29,7 @@ def main():
     err = None
     try:
         mod.setup(rec, reach)
+        core.SolverWatch.install()
         reach.start()
         if replay:
             case = json.load(open(replay))
@@ -41,7 +42,15 @@ def main():
             for case in mod.cases(shard, nshards, seed, tier):
                 rec.begin(case)
                 try:
+                    before = core.SolverWatch.unexpected
                     mod.run_case(case, rec)
+                    if rec.case_violated and core.SolverWatch.unexpected > before:
+                        # the MILP back-end failed during this case although nothing injected a fault: run the case
+                        # again; what the second run records is what counts
+                        rec.rollback()
+                        rec.begin(case, rerun=True)
+                        rec.count("note:case-run-again-after-a-solver-failure-nobody-injected")
+                        mod.run_case(case, rec)
                 finally:
                     rec.end()
                 if budget and time.time() - t0 > budget:
